@@ -236,6 +236,24 @@ pub fn history_props(id: &str) -> Option<HistoryProp> {
                     quick: 96,
                     thorough: 1500,
                 },
+                // forests wider than the 200-item minimum batch, tiny hints, incremental rounds
+                HistoryTier {
+                    label: "C14-wide",
+                    gen: GenCfg {
+                        dims: vec![(1, vec![2, 3])],
+                        rounds: (2, 3),
+                        first_ops: (30, 120),
+                        later_ops: (30, 150),
+                        id_pool: (150, 400),
+                        n_trees: vec![(1, vec![Some(201), Some(256)])],
+                        avail_mem: vec![(1, vec![Some(0), Some(1), Some(4096), Some(3 * 4096)])],
+                        split_after: vec![(1, vec![None, Some(2), Some(7)])],
+                        threads: vec![1, 4],
+                        ..gen_c14()
+                    },
+                    quick: 16,
+                    thorough: 400,
+                },
                 // grow / mass deletion / regrow under every memory hint
                 HistoryTier {
                     label: "C14-regrow",
@@ -429,7 +447,8 @@ fn gen_c14() -> GenCfg {
         id_pool: (150, 1500),
         threads: vec![1, 2, 4],
         split_after: vec![(3, vec![None]), (2, vec![Some(1), Some(7)]), (2, vec![Some(150), Some(200), Some(250), Some(400)])],
-        n_trees: vec![(1, vec![None]), (4, vec![Some(1), Some(2), Some(3), Some(4)])],
+        // mostly a handful of trees; now and then a forest wider than the 200-item minimum batch
+        n_trees: vec![(6, vec![None]), (30, vec![Some(1), Some(2), Some(3), Some(4)]), (1, vec![Some(201)])],
         avail_mem: vec![
             (1, vec![None]),
             (8, vec![Some(0), Some(1), Some(4096), Some(3 * 4096), Some(10 * 4096), Some(40 * 4096), Some(200 * 4096), Some(1 << 40), Some(usize::MAX)]),
